@@ -6,29 +6,47 @@ import (
 	"fmt"
 	"go/constant"
 	"go/types"
+	"sort"
 	"strings"
 )
 
 type tv struct {
-	t    string
-	ty   types.Type // nil for untyped nil
-	addr bool       // t is the address of a struct of type ty.(*types.Pointer).Elem() reached by field selection
-	isNil bool
+	t       string
+	ty      types.Type // nil for untyped nil
+	addr    bool       // t is the address of a struct of type ty.(*types.Pointer).Elem() reached by field selection
+	isNil   bool
 	untyped bool
+	boxed   types.Type // iface(x): static type of x
 }
 
 type SpecEnv struct {
-	vc       *VC
-	pkgPath  string
-	pkg      *types.Package
-	vars     map[string]tv
-	lazy     map[string]*Loc
-	st, old  *State
-	hash     map[string]tv
-	typeOnly bool
-	qn       int
+	vc        *VC
+	pkgPath   string
+	pkg       *types.Package
+	vars      map[string]tv
+	lazy      map[string]*Loc
+	st, old   *State
+	hash      map[string]tv
+	typeOnly  bool
+	qn        int
 	heapParam map[string]string // when translating ghost function bodies: heap name -> formal parameter
 	heapUsed  map[string]bool
+	fuelTerm  string                // fuel passed to fuel-encoded ghost functions ("" => the default two unfoldings)
+	tpBind    map[string]types.Type // type parameters of a generic ghost function bound by the call's argument types
+	genFuel   bool                  // translating an assumption: fuel-encoded applications under a quantifier get a bound fuel variable
+	inQuant   int
+}
+
+const (
+	fuelAssume = 6
+	fuelAssert = 7
+)
+
+// assumeExpr translates a formula that is going to be ASSUMED (fuel-encoded ghost functions get the lower fuel).
+func (e *SpecEnv) assumeExpr(x Expr) (string, error) {
+	sub := *e
+	sub.genFuel = true
+	return sub.boolExpr(x)
 }
 
 func (vc *VC) newEnv(pkgPath string, st *State) *SpecEnv {
@@ -72,6 +90,29 @@ var tBool = types.Typ[types.Bool]
 var tString = types.Typ[types.String]
 
 func (e *SpecEnv) resolveType(t *TypeExpr) (types.Type, error) {
+	if len(t.Args) > 0 {
+		bare := *t
+		bare.Args = nil
+		sub := *e
+		sub.tpBind = map[string]types.Type{"\x00noinst": nil} // keep the generic type uninstantiated
+		gt, err := sub.resolveType(&bare)
+		if err != nil {
+			return nil, err
+		}
+		n, ok := gt.(*types.Named)
+		if !ok || n.TypeParams().Len() != len(t.Args) {
+			return nil, fmt.Errorf("type %s does not take %d type arguments", bare.String(), len(t.Args))
+		}
+		var targs []types.Type
+		for _, a := range t.Args {
+			at, err := e.resolveType(a)
+			if err != nil {
+				return nil, err
+			}
+			targs = append(targs, at)
+		}
+		return types.Instantiate(nil, n, targs, false)
+	}
 	switch t.Kind {
 	case "ptr":
 		el, err := e.resolveType(t.Elem)
@@ -105,9 +146,15 @@ func (e *SpecEnv) resolveType(t *TypeExpr) (types.Type, error) {
 		if e.pkg != nil {
 			if o := e.pkg.Scope().Lookup(t.Name); o != nil {
 				if tn, ok := o.(*types.TypeName); ok {
-					return tn.Type(), nil
+					return e.instantiateWithCurrent(tn.Type()), nil
 				}
 			}
+		}
+		if tp, ok := e.tpBind[t.Name]; ok {
+			return tp, nil
+		}
+		if tp := e.vc.typeParam(t.Name); tp != nil {
+			return tp, nil
 		}
 		return nil, fmt.Errorf("unknown type %s", t.Name)
 	}
@@ -117,10 +164,38 @@ func (e *SpecEnv) resolveType(t *TypeExpr) (types.Type, error) {
 	}
 	if o := p.Scope().Lookup(t.Name); o != nil {
 		if tn, ok := o.(*types.TypeName); ok {
-			return tn.Type(), nil
+			return e.instantiateWithCurrent(tn.Type()), nil
 		}
 	}
 	return nil, fmt.Errorf("unknown type %s", t.String())
+}
+
+// instantiateWithCurrent: a generic named type written without type arguments in a contract of a generic function
+// means the instance over that function's own type parameters of the same names (WrapMap == WrapMap[K, V]).
+func (e *SpecEnv) instantiateWithCurrent(t types.Type) types.Type {
+	n, ok := t.(*types.Named)
+	if !ok || n.TypeParams().Len() == 0 || n.TypeArgs().Len() > 0 {
+		return t
+	}
+	if _, noinst := e.tpBind["\x00noinst"]; noinst {
+		return t
+	}
+	var targs []types.Type
+	for i := 0; i < n.TypeParams().Len(); i++ {
+		tp, ok := e.tpBind[n.TypeParams().At(i).Obj().Name()]
+		if !ok {
+			tp = e.vc.typeParam(n.TypeParams().At(i).Obj().Name())
+		}
+		if tp == nil {
+			return t
+		}
+		targs = append(targs, tp)
+	}
+	inst, err := types.Instantiate(nil, n, targs, false)
+	if err != nil {
+		return t
+	}
+	return inst
 }
 
 func (e *SpecEnv) resolveTypeIn(pkgPath string, t *TypeExpr) (types.Type, error) {
@@ -297,6 +372,7 @@ func (e *SpecEnv) expr(x Expr) (tv, error) {
 				guards = append(guards, g)
 			}
 		}
+		sub.inQuant++
 		body, err := sub.boolExpr(n.Body)
 		if err != nil {
 			return tv{}, err
@@ -790,6 +866,38 @@ func (e *SpecEnv) call(n *ECall) (tv, error) {
 			case "replaceAll":
 				return tv{t: fmt.Sprintf("(str.replace_all %s %s %s)", as[0].t, as[1].t, as[2].t), ty: tString}, nil
 			}
+		case "deref":
+			// deref(p): the content of the cell a pointer to a non-struct value points to
+			as, err := argv()
+			if err != nil {
+				return tv{}, err
+			}
+			a := asPtr(as[0])
+			pt, ok := a.ty.Underlying().(*types.Pointer)
+			if !ok {
+				return tv{}, fmt.Errorf("deref needs a pointer")
+			}
+			if _, isS := isStructT(pt.Elem()); isS {
+				return tv{}, fmt.Errorf("deref of a struct pointer: use field selectors")
+			}
+			return tv{t: fmt.Sprintf("(select %s %s)", e.heap(d.cellHeap(pt.Elem())), a.t), ty: pt.Elem()}, nil
+		case "dom", "vals":
+			// dom(m): the key set of a Go map as a mathematical set; vals(m): its key->value function
+			as, err := argv()
+			if err != nil {
+				return tv{}, err
+			}
+			a := e.deref(as[0])
+			mt, ok := a.ty.Underlying().(*types.Map)
+			if !ok {
+				return tv{}, fmt.Errorf("%s needs a Go map", id.Name)
+			}
+			dh, vh, _ := d.mapHeaps(mt)
+			if id.Name == "dom" {
+				ks := d.sortOf(mt.Key())
+				return tv{t: fmt.Sprintf("(ite (= %s 0) ((as const (Array %s Bool)) false) (select %s %s))", a.t, ks, e.heap(dh), a.t), ty: &ghostMap{mt.Key(), tBool}}, nil
+			}
+			return tv{t: fmt.Sprintf("(select %s %s)", e.heap(vh), a.t), ty: &ghostMap{mt.Key(), mt.Elem()}}, nil
 		case "iface":
 			// iface(x): the interface value holding x (dynamic type = static type of x)
 			as, err := argv()
@@ -801,10 +909,10 @@ func (e *SpecEnv) call(n *ECall) (tv, error) {
 				return tv{t: "(mk-iface 0 0)", ty: types.NewInterfaceType(nil, nil)}, nil
 			}
 			if isRefLike(a.ty) {
-				return tv{t: fmt.Sprintf("(mk-iface %d %s)", d.typeTag(a.ty), a.t), ty: types.NewInterfaceType(nil, nil)}, nil
+				return tv{t: fmt.Sprintf("(mk-iface %d %s)", d.typeTag(a.ty), a.t), ty: types.NewInterfaceType(nil, nil), boxed: a.ty}, nil
 			}
 			box, _ := d.boxFuns(a.ty)
-			return tv{t: fmt.Sprintf("(mk-iface %d (%s %s))", d.typeTag(a.ty), box, a.t), ty: types.NewInterfaceType(nil, nil)}, nil
+			return tv{t: fmt.Sprintf("(mk-iface %d (%s %s))", d.typeTag(a.ty), box, a.t), ty: types.NewInterfaceType(nil, nil), boxed: a.ty}, nil
 		case "bstr":
 			as, err := argv()
 			if err != nil {
@@ -923,16 +1031,19 @@ func (e *SpecEnv) applyInline(fc *FuncContract, as []tv) (tv, error) {
 
 // applyGhost applies a ghost function: heap components it reads are passed explicitly.
 func (e *SpecEnv) applyGhost(gf *GhostFunc, as []tv) (tv, error) {
-	gd, err := e.vc.ghostDefine(gf)
-	if err != nil {
-		return tv{}, err
-	}
 	if len(as) != len(gf.Params) {
 		return tv{}, fmt.Errorf("arity mismatch calling ghost %s", gf.Name)
 	}
+	bind := e.inferTypeBindings(gf, as)
+	gd, err := e.vc.ghostDefine(gf, bind)
+	if err != nil {
+		return tv{}, err
+	}
 	var ts []string
 	for i, a := range as {
-		if pt, err := e.resolveTypeIn(gf.PkgPath, gf.Params[i].T); err == nil {
+		sub := e.vc.newEnv(gf.PkgPath, nil)
+		sub.tpBind = bind
+		if pt, err := sub.resolveType(gf.Params[i].T); err == nil {
 			if _, isPtr := pt.Underlying().(*types.Pointer); isPtr {
 				ts = append(ts, asPtr(a).t)
 				continue
@@ -942,6 +1053,26 @@ func (e *SpecEnv) applyGhost(gf *GhostFunc, as []tv) (tv, error) {
 	}
 	for _, h := range gd.heaps {
 		ts = append(ts, e.heap(h))
+	}
+	if gd.fuel && e.heapParam == nil && e.vc.fn != nil && e.vc.entrySt != nil && len(gd.heaps) > 0 {
+		e.vc.bridgeFrame(gd, ts[len(ts)-len(gd.heaps):])
+	}
+	if gd.fuel {
+		// Dafny's scheme: goals carry one more unit of fuel than assumptions. The synonym axiom f(S(fl),x) == f(fl,x)
+		// makes every lower-fuel version of a goal term exist, so the instantiation patterns of assumed quantified
+		// facts (lower fuel) match them, and the terms those facts produce can still be unfolded.
+		fl := e.fuelTerm
+		if fl == "" {
+			n := fuelAssert
+			if e.genFuel {
+				n = fuelAssume
+			}
+			fl = "fuel.Z"
+			for i := 0; i < n; i++ {
+				fl = "(fuel.S " + fl + ")"
+			}
+		}
+		ts = append([]string{fl}, ts...)
 	}
 	if len(ts) == 0 {
 		return tv{t: gd.name, ty: gd.result}, nil
@@ -1014,6 +1145,15 @@ func (e *SpecEnv) modTargets(x Expr) ([]modTarget, error) {
 			return []modTarget{{heap: a, ref: base.t}, {heap: b, ref: base.t}, {heap: c, ref: base.t}}, nil
 		}
 	case *ECall:
+		if id, ok := n.Fun.(*EIdent); ok && len(n.Args) == 1 && id.Name == "local" {
+			// the cell of a named address-taken local variable of the function under verification
+			if a, ok := n.Args[0].(*EIdent); ok {
+				if l, ok := e.lazy[a.Name]; ok && l != nil && l.heap != "" && l.local == "" && len(l.path) == 0 && !l.opaque {
+					return []modTarget{{heap: l.heap, ref: l.idx}}, nil
+				}
+			}
+			return nil, fmt.Errorf("local(%s): not an address-taken local variable", n.Args[0].String())
+		}
 		if id, ok := n.Fun.(*EIdent); ok && len(n.Args) == 1 {
 			base, err := e.expr(n.Args[0])
 			if err != nil {
@@ -1133,4 +1273,144 @@ func slIdx(t, i string) string {
 		return "(sidx " + p[1] + " " + i + ")"
 	}
 	return "(sidx (s.off " + t + ") " + i + ")"
+}
+
+// bridgeFrame: frame axiom for a heap-dependent (fuel-encoded) ghost function between the heaps of one program state and
+// the entry heaps. It is a meta-theorem of the memory model (by induction on the unfolding): the entry heap is closed, so
+// from arguments that existed at entry the function only reads cells of objects that existed at entry; if the two heaps
+// agree on all of those, the values agree.
+func (vc *VC) bridgeFrame(gd *ghostDef, hs []string) {
+	var h0 []string
+	same := true
+	for i, h := range gd.heaps {
+		t := vc.stGet(vc.entrySt, h)
+		h0 = append(h0, t)
+		if t != hs[i] {
+			same = false
+		}
+	}
+	if same {
+		return
+	}
+	key := strings.Join(hs, " ")
+	if gd.bridged == nil {
+		gd.bridged = map[string]bool{}
+	}
+	if gd.bridged[key] {
+		return
+	}
+	gd.bridged[key] = true
+	var q, args, entryArgs, agree []string
+	q = append(q, "(fl! Fuel)")
+	for _, p := range gd.params {
+		q = append(q, fmt.Sprintf("(%s %s)", p[0], strings.TrimPrefix(p[1], "abstract:")))
+		args = append(args, p[0])
+		switch p[1] {
+		case "Int":
+			entryArgs = append(entryArgs, fmt.Sprintf("(< (rootref %s) $alloc@0)", p[0]))
+		case "Iface":
+			entryArgs = append(entryArgs, fmt.Sprintf("(< (rootref (i.val %s)) $alloc@0)", p[0]))
+		case "Slice":
+			entryArgs = append(entryArgs, fmt.Sprintf("(< (rootref (s.arr %s)) $alloc@0)", p[0]))
+		}
+	}
+	for i := range hs {
+		if hs[i] != h0[i] {
+			agree = append(agree, fmt.Sprintf("(forall ((r! Int)) (=> (< (rootref r!) $alloc@0) (= (select %s r!) (select %s r!))))", hs[i], h0[i]))
+		}
+	}
+	t1 := fmt.Sprintf("(%s fl! %s %s)", gd.name, strings.Join(args, " "), strings.Join(hs, " "))
+	t0 := fmt.Sprintf("(%s fl! %s %s)", gd.name, strings.Join(args, " "), strings.Join(h0, " "))
+	vc.defs = append(vc.defs, fmt.Sprintf("(assert (=> %s (forall (%s) (! (=> %s (= %s %s)) :pattern (%s) :pattern (%s)))))",
+		and(agree...), strings.Join(q, " "), and(append(entryArgs, "true")...), t1, t0, t1, t0))
+	vc.note("frame axiom assumed for heap-dependent ghost function %s (entry-allocated arguments; heaps agreeing on entry-allocated objects)", gd.name)
+}
+
+// inferTypeBindings: a ghost function of a generic package is written over the package's type-parameter names (K, V);
+// at a call the names are bound from the argument types: a parameter declared with a bare type-parameter name takes the
+// argument's type, a parameter declared with a generic named type takes that type's arguments.
+func (e *SpecEnv) inferTypeBindings(gf *GhostFunc, as []tv) map[string]types.Type {
+	bind := map[string]types.Type{}
+	for k, v := range e.tpBind {
+		bind[k] = v
+	}
+	pkg := e.vc.g.typesPkg(gf.PkgPath)
+	for i := range gf.Params {
+		// any argument of an instantiated generic named type binds that type's parameter names
+		an := as[i].ty
+		if as[i].boxed != nil {
+			an = as[i].boxed
+		}
+		if an == nil {
+			continue
+		}
+		if pt, ok := an.(*types.Pointer); ok {
+			an = pt.Elem()
+		}
+		if inst, ok := an.(*types.Named); ok && inst.TypeArgs().Len() > 0 && inst.Origin().TypeParams().Len() == inst.TypeArgs().Len() {
+			for j := 0; j < inst.TypeArgs().Len(); j++ {
+				if _, done := bind[inst.Origin().TypeParams().At(j).Obj().Name()]; !done {
+					bind[inst.Origin().TypeParams().At(j).Obj().Name()] = inst.TypeArgs().At(j)
+				}
+			}
+		}
+	}
+	for i, p := range gf.Params {
+		if p.T == nil || p.T.Kind != "" && p.T.Kind != "name" || p.T.Pkg != "" || as[i].ty == nil {
+			continue
+		}
+		te := p.T
+		if types.Universe.Lookup(te.Name) != nil {
+			continue
+		}
+		var declared types.Object
+		if pkg != nil {
+			declared = pkg.Scope().Lookup(te.Name)
+		}
+		at := as[i].ty
+		if declared == nil {
+			if _, isGM := at.(*ghostMap); !isGM {
+				if _, done := bind[te.Name]; !done {
+					bind[te.Name] = at
+				}
+			}
+			continue
+		}
+		if tn, ok := declared.(*types.TypeName); ok {
+			if gen, ok := tn.Type().(*types.Named); ok && gen.TypeParams().Len() > 0 {
+				an := at
+				if as[i].boxed != nil {
+					an = as[i].boxed
+				}
+				if pt, ok := an.(*types.Pointer); ok {
+					an = pt.Elem()
+				}
+				if inst, ok := an.(*types.Named); ok && inst.TypeArgs().Len() > 0 && inst.Origin().TypeParams().Len() == inst.TypeArgs().Len() {
+					for j := 0; j < inst.TypeArgs().Len(); j++ {
+						bind[inst.Origin().TypeParams().At(j).Obj().Name()] = inst.TypeArgs().At(j)
+					}
+				}
+			}
+		}
+	}
+	if len(bind) == 0 {
+		return nil
+	}
+	return bind
+}
+
+func bindKey(bind map[string]types.Type) string {
+	if len(bind) == 0 {
+		return ""
+	}
+	var ks []string
+	for k := range bind {
+		ks = append(ks, k)
+	}
+	sort.Strings(ks)
+	var out []string
+	for _, k := range ks {
+		out = append(out, typeName(bind[k]))
+	}
+	return "<" + strings.Join(out, ",") + ">"
 }
